@@ -182,7 +182,7 @@ def scan(f, init, xs=None, length=None, **kw):
     SCAN_CALLS.append(n)
     for i in range(n):
         xi = tree_map(lambda a: a[i], xs) if xs else {}
-        carry, o = f(carry, xi)
+        carry, o = f(tree_map(lambda leaf: leaf, carry), xi)      # scan rebuilds the carry pytree: f cannot mutate the caller's containers
         outs.append(o)
     if not outs:
         return carry, TArr([])
